@@ -11,10 +11,13 @@ import time
 import traceback
 import warnings
 
+import math
+
 import z3
 
 from . import sv as _sv
 from .sv import SV, SymBool, PathEnd, Leak, explore
+from .sv import rv as sv_rv
 from .harness import REGISTRY, Ctx
 from .solve import smt2_text
 
@@ -152,8 +155,12 @@ def run_task(modname, hid, case_idx, tier, seed, prefixes=None, split_depth=None
         hyp = eng.base + eng.pc + eng.defs
         obs = list(ctx.obligations)
         if status.startswith('exception'):
+            from .replay import exc_origin
             tb = ''.join(traceback.format_exception(exc)[-8:])
             rec['exception'] = tb[-1500:]
+            if exc_origin(exc) != 'library':
+                rec['error'] = 'exception in harness code: ' + tb[-1200:]
+                return rec
             obs.append(('no_exception', False, dict(exc=type(exc).__name__, msg=str(exc)[:200])))
         # reachability twin (also yields a model for encoding validation)
         r, m, dt = quick_check(hyp, QUICK_MS)
@@ -168,6 +175,23 @@ def run_task(modname, hid, case_idx, tier, seed, prefixes=None, split_depth=None
             ipc = interior(eng.pc)
             if ipc is not None:
                 r2, m2, _ = quick_check(eng.base + ipc + eng.defs, QUICK_MS)
+                if r2 == 'sat' and (eng.trig_atoms or eng.exp_atoms):
+                    # the axioms for sin/cos/exp are incomplete: pin them to the true function values at the
+                    # model's arguments so that the symbolic side is comparable with a concrete run
+                    pins = []
+                    eps = z3.RealVal('1/1000000000')
+                    for (t, c, sn) in eng.trig_atoms:
+                        a = z3_to_py(m2.eval(t, model_completion=True))
+                        av = m2.eval(t, model_completion=True)
+                        pins += [t == av, c >= sv_rv(math.cos(a)) - eps, c <= sv_rv(math.cos(a)) + eps,
+                                 sn >= sv_rv(math.sin(a)) - eps, sn <= sv_rv(math.sin(a)) + eps]
+                    for (arg, v) in eng.exp_atoms:
+                        at = arg.term()
+                        a = z3_to_py(m2.eval(at, model_completion=True))
+                        av = m2.eval(at, model_completion=True)
+                        ev = math.exp(max(min(a, 600.0), -600.0))
+                        pins += [at == av, v >= sv_rv(ev * (1 - 1e-9)), v <= sv_rv(ev * (1 + 1e-9))]
+                    r2, m2, _ = quick_check(eng.base + ipc + eng.defs + pins, 3 * QUICK_MS)
                 if r2 == 'sat':
                     try:
                         obsv = {}
